@@ -191,6 +191,55 @@ def finite(*xs):
     return all(math.isfinite(float(a)) for a in xs)
 
 
+SHAPES = {'psigradpsi': ('v', 'svv'), 'psi': ('v', 'sv'), 'gradpsi': ('v', 'v'), 'gradL': ('vv', 'v'),
+          'prox': ('svv', 'svv')}
+
+
+def _take(shape, toks, i):
+    items = []
+    for ch in shape:
+        if ch == 'v':
+            n = int(toks[i])
+            items.append(tuple(toks[i:i + n + 1]))
+            i += n + 1
+        else:
+            items.append((toks[i],))
+            i += 1
+    return tuple(items), i
+
+
+def oracle_is_function(out_line):
+    """With NaN injection the k-th ψ evaluation returns NaN *once*: if the same point is evaluated
+    again the problem is not a function of its arguments and cannot be replayed from a lookup table
+    (a limitation of the replay, not of the solver).  True iff every recorded problem call with
+    equal arguments has equal results."""
+    seen = {}
+    for e in S.parse_out(out_line)['events']:
+        if not e or e[0] not in SHAPES:
+            continue
+        a, rshape = SHAPES[e[0]]
+        try:
+            args, i = _take(a, e, 1)
+            res, _ = _take(rshape, e, i)
+        except (ValueError, IndexError):
+            return False
+        key = (e[0], args)
+        if seen.setdefault(key, res) != res:
+            return False
+    return True
+
+
+def drop_non_functional(exe, lines):
+    """Remove the NaN-injection runs whose recorded problem calls are not a function (see above).
+    → (kept lines, number dropped)."""
+    idx = [i for i, l in enumerate(lines) if S.Op.parse(l).nat('nanat', 0) != 0]
+    if not exe or not idx:
+        return lines, 0
+    out, rc, err = C.run_lines(exe, [lines[i] for i in idx])
+    bad = {i for i, o in zip(idx, out) if not oracle_is_function(o)}
+    return [l for i, l in enumerate(lines) if i not in bad], len(bad)
+
+
 class LoopReport(C.Report):
     """Report whose evidence file is named separately (stand-alone runs of a module that is
     normally hooked into another property's check)."""
